@@ -284,6 +284,12 @@ Theorem C16_header_field_recoverable : forall O f u l,
     forall x, ffill f = Some (YStr x) -> obind (nth_error l (length l - 1)) (scalar_of_line "      fill: ") = Some x.
 Proof. exact header_field_recoverable. Qed.
 
+(* ... and the unit of a field that has one, whatever characters it contains ('%', 'a: b', '[', apostrophes ...) *)
+Theorem C16_header_unit_recoverable : forall O f u l,
+  field_lines O f (Some u) = Ok l ->
+  obind (nth_error l 2) (scalar_of_line "      unit: ") = Some u.
+Proof. exact header_unit_recoverable. Qed.
+
 (* by computation: apostrophes are doubled, U+1F600 is four bytes none of which is touched, NEL is C2 85,
    malformed scalars are refused, a two-field header with a comment, a unit, an empty string fill and an
    integer fill *)
@@ -296,7 +302,7 @@ Example C16_header_examples :
       (Some [mkField (Some (YStr "x")) None (Some (YStr "")); mkField (Some (YStr "y")) (Some "integer") (Some (YInt 0))]))
       [Some "km"; None] =
     Ok ["# c"; "schema:"; "  delimiter: ','"; "  missing: 'n''a'"; "  fields:";
-        "    - name: 'x'"; "      type: string"; "      unit: km"; "      fill: ''";
+        "    - name: 'x'"; "      type: string"; "      unit: 'km'"; "      fill: ''";
         "    - name: 'y'"; "      type: integer"; "      fill: 0"].
 Proof. exact header_examples. Qed.
 
